@@ -85,6 +85,13 @@ def job_boost(res, L_, v):
                         assume.append(need <= T.data_bits(v, error))
 
                     def run():
+                        # history: an earlier call with the sibling configuration (other eci flag / byte encoding, same length class)
+                        # must not influence this one
+                        for sib_parts, sib_eci in siblings(parts, eci):
+                            try:
+                                enc.boost_error_level(v, S.level_const(consts, error), S.build_segments(enc, consts, sib_parts, 16), sib_eci, is_sa=is_sa)
+                            except Exception:
+                                pass
                         segs = S.build_segments(enc, consts, parts, SNum(L))
                         return enc.boost_error_level(v, S.level_const(consts, error), segs, eci, is_sa=is_sa)
                     ex, paths = common.explore(run, assume=assume, max_paths=64)
@@ -109,6 +116,13 @@ def job_boost(res, L_, v):
                         bt.run(to_input)
     res.sample({'case': res.name, 'symbolic': 'L (payload bits), unbounded', 'obligation': 'boost_error_level == highest ISO level >= request whose capacity >= overhead + L'})
     return res.as_dict()
+
+
+def siblings(parts, eci):
+    if not any(m == 'byte' for m, _ in parts):
+        return []
+    flip = [(m, (None if e else 'utf-8') if m == 'byte' else e) for m, e in parts]
+    return [(flip, True), (flip, False), (parts, not eci)]
 
 
 def job_glue(res, L_, parts):
@@ -233,6 +247,14 @@ def replay(viol):
         return segs
     if inp['fn'] == 'boost':
         v, error, eci, is_sa, L = inp['v'], inp['error'], inp['eci'], inp['is_sa'], inp['L']
+        saved = parts
+        for sib_parts, sib_eci in siblings(parts, eci):
+            parts = sib_parts
+            try:
+                enc.boost_error_level(v, S.level_const(consts, error), segments(16), sib_eci, is_sa=is_sa)
+            except Exception:
+                pass
+        parts = saved
         try:
             got = enc.boost_error_level(v, S.level_const(consts, error), segments(L), eci, is_sa=is_sa)
         except Exception as e:
